@@ -4,11 +4,32 @@
    (every static scope operation agrees with its run-time counterpart: lookup,
    declaration, fork) and the scoping rules the property names (shadowing,
    redeclaration, COLLECT hiding, a variable is not visible in its own
-   initializer).  check_sound for whole programs — the induction stitching
-   these lemmas along evaluation — is NOT proved (see check_sound_partial
-   below for what is); it is tested on every generated program by the
+   initializer), and WHOLE-PROGRAM SOUNDNESS for the COLLECT-free fragment
+   (check_sound_partial: every expression form, LET, FOR / FOR-WHILE with
+   FILTER, SORT, LIMIT, statements, nesting and sub-queries; by simultaneous
+   induction over the evaluator, the iterator state machines and the data-source
+   chain, Proofs/ScopeSound.v).  For programs containing COLLECT the same
+   statement is not proved; it is tested on every generated program by the
    correspondence check (mismatch kind 5).  Statements only. *)
-From Ferret Require Import Eval StaticScope Proofs.ScopeProofs.
+From Ferret Require Import Eval StaticScope Proofs.ScopeProofs Proofs.ScopeSound.
+
+(* a program accepted by the specified checker (here with COLLECT rejected)
+   never fails at run time because a variable is missing, already declared or
+   unnamed — for every evaluation fuel and every world (parameters,
+   cancellation point, injected failure) *)
+Theorem check_sound_partial : forall p cf, chk_program true false cf p = COk ->
+  forall fuel w,
+    match fst (run_body fuel p w) with
+    | Err EScopeNotFound | Err EScopeNotUnique | Err EScopeUnnamed => False
+    | _ => True
+    end.
+Proof.
+  intros p cf C fuel w. pose proof (check_sound_nocollect p cf C fuel w) as H.
+  destruct (fst (run_body fuel p w)) as [v|e| | | | |]; try exact I.
+  destruct e; try exact I; discriminate H.
+Qed.
+Print Assumptions check_sound_partial.
+
 
 (* soundness of lookups: statically visible => bound at run time, for every
    pair of scopes in agreement; and completeness: invisible => unbound *)
@@ -57,21 +78,32 @@ Print Assumptions collect_hides_own_loop.
    three places where the pinned visitor differed from the specification *)
 Definition x_ := bs "x". Definition i_ := bs "i". Definition g_ := bs "g".
 Example let_not_visible_in_own_initializer :
-  chk_program true 50 {| p_stmts := [SLet x_ (EVar x_)]; p_ret := BReturn (EVar x_) |} = CNotFound /\
-  chk_program false 50 {| p_stmts := [SLet x_ (EVar x_)]; p_ret := BReturn (EVar x_) |} = COk.
+  chk_program true true 50 {| p_stmts := [SLet x_ (EVar x_)]; p_ret := BReturn (EVar x_) |} = CNotFound /\
+  chk_program false true 50 {| p_stmts := [SLet x_ (EVar x_)]; p_ret := BReturn (EVar x_) |} = COk.
 Proof. split; reflexivity. Qed.
 Example limit_sees_enclosing_scope_only :
   let q := ForIn i_ None (EArr [EInt 1]) [CLimit None (EVar i_)] (RReturn false (EVar i_)) in
-  chk_program true 50 {| p_stmts := []; p_ret := BFor q |} = CNotFound /\
-  chk_program false 50 {| p_stmts := []; p_ret := BFor q |} = COk /\
+  chk_program true true 50 {| p_stmts := []; p_ret := BFor q |} = CNotFound /\
+  chk_program false true 50 {| p_stmts := []; p_ret := BFor q |} = COk /\
   fst (run_body 50 {| p_stmts := []; p_ret := BFor q |} (init_world [] false None)) = Err EScopeNotFound.
 Proof. repeat split; reflexivity. Qed.
 Example collect_hides_loop_variable :
   let q := ForIn i_ None (EArr [EInt 1]) [CCollect [(g_, EVar i_)] CTNone] (RReturn false (EVar i_)) in
-  chk_program true 50 {| p_stmts := []; p_ret := BFor q |} = CNotFound.
+  chk_program true true 50 {| p_stmts := []; p_ret := BFor q |} = CNotFound.
 Proof. reflexivity. Qed.
+(* non-vacuity of check_sound_partial: a nested, shadowing, filtering, sorting
+   program with a sub-query is accepted by the COLLECT-rejecting checker *)
+Example check_sound_partial_applies :
+  let q := ForIn i_ None (ERange (EInt 1) (EInt 3))
+             [CLet x_ (EMath MMul (EVar i_) (EInt 2)); CFilter (ECmp CGt (EVar x_) (EInt 2));
+              CSort [(EVar x_, true)]; CLimit None (EInt 5)]
+             (RFor (ForIn i_ None (ESub (ForIn g_ None (EArr [EVar x_]) [] (RReturn false (EVar g_)))) []
+                      (RReturn false (EArr [EVar i_; EVar x_])))) in
+  chk_program true false 50 {| p_stmts := [SLet g_ (EInt 0)]; p_ret := BFor q |} = COk.
+Proof. reflexivity. Qed.
+
 Example shadowing_in_nested_loop_accepted :
   let q := ForIn i_ None (EArr [EInt 1]) [] (RFor (ForIn i_ None (EArr [EInt 2]) [] (RReturn false (EVar i_)))) in
-  chk_program true 50 {| p_stmts := []; p_ret := BFor q |} = COk /\
+  chk_program true true 50 {| p_stmts := []; p_ret := BFor q |} = COk /\
   fst (run_body 50 {| p_stmts := []; p_ret := BFor q |} (init_world [] false None)) = Ok (VArr [VInt 2]).
 Proof. split; reflexivity. Qed.
